@@ -295,6 +295,17 @@ func (eval Evaluator) matchScaleThenEvaluateInPlace(level int, el0 *rlwe.Ciphert
 
 	r0, r1, _ := eval.matchScalesBinary(el0.Scale.Uint64(), el1.Scale.Uint64())
 
+	// If the second operand is the output, it is overwritten
+	// below before being read: works on a copy of it.
+	el1Value := el1.Value
+	if el1 == elOut.El() && len(el1.Value) <= len(eval.buffQ) {
+		el1Value = make([]ring.Poly, len(el1.Value))
+		for i := range el1.Value {
+			el1Value[i] = eval.buffQ[i]
+			el1Value[i].CopyLvl(level, el1.Value[i])
+		}
+	}
+
 	for i := range el0.Value {
 		eval.parameters.RingQ().AtLevel(level).MulScalar(el0.Value[i], r0, elOut.Value[i])
 	}
@@ -303,8 +314,8 @@ func (eval Evaluator) matchScaleThenEvaluateInPlace(level int, el0 *rlwe.Ciphert
 		elOut.Value[i].Zero()
 	}
 
-	for i := range el1.Value {
-		evaluate(el1.Value[i], r1, elOut.Value[i])
+	for i := range el1Value {
+		evaluate(el1Value[i], r1, elOut.Value[i])
 	}
 
 	elOut.Scale = el0.Scale.Mul(eval.parameters.NewScale(r0))
